@@ -248,7 +248,8 @@ PlantInSeq(xs, j, k, u) ==
 \* constructs the documentation lists as unsupported, in concrete syntax
 UnsupPool == << "^", "$", "\\A", "\\z", "\\b", "\\B", "(?i)", "(?i:a)", "(?s-m:a)", "a*?", "a+?", "a??", "a{1,2}?",
                 "\\p{Greek}", "\\p{sc=Greek}", "\\pX", "\\P{Cyrillic}", "[\\p{Greek}]", "[a\\pX]", "[^\\p{sc=Latin}b]",
-                "[a&&\\p{Greek}]", "(?m)", "\\p{L}", "\\P{N}", "\\p{Z}", "\\p{lowercase}", "\\p{Lu}" >>
+                "[a&&\\p{Greek}]", "(?m)", "\\p{L}", "\\P{N}", "\\p{Z}", "\\p{lowercase}", "\\p{Lu}",
+                "(?-i:a)", "(?-u:a)", "(?-s:a)", "(?-i)", "(?x:a)", "(?U:a)", "(?i-s:a)", "(?-m-s:a)" >>
 \* host regexes built only from supported constructs (depth <= 3)
 Hosts == << A1, Cat(A1, A2), Alt(A1, A2), Star(A12), Plus(Cat(A1, A2)), Opt(Alt(A1, Eps)), Rep(A1, 1, 2),
             Cat(Star(A1), Alt(A2, Cat(A1, A3))), Alt(Cat(A1, A2), Plus(A3)), Rep(Alt(A1, A2), 0, -1),
